@@ -11,6 +11,7 @@ Mirrors `pox/lib/recoco/recoco.py` (line numbers of the pinned tree):
 * `subOut`                            — `AgainTask.run_again` :668-701 (sub-task runs a generator for its caller, `first=True` hand-back).
 * `timerStep`                         — `Timer.run` :1073-1081 (with `start` :1063-1068 folded into the initial state).
 * `fastSchedule`                      — `Scheduler.fast_schedule` :250-279 (its `assert` is kept: failing it sets `crashed`).
+* `schedule`                          — `Scheduler.schedule` :223-245 on the scheduler's thread / `ScheduleTask.run` :982-994.
 * `registerSelect`, `scanEntry`, `hubSelect`, `hubReturn` — `SelectHub.registerSelect` :929-936, `_select` :840-927, `_return` :952-955.
   `select.select` is replaced by the *virtual select* `vselect` (the environment): it returns at once when the pinger or a
   requested fd is ready, otherwise the clock jumps to the first scripted fd readiness or by the requested timeout; when nothing can
@@ -172,6 +173,13 @@ def prioOf (s : St) (t : Nat) : Nat := prioL s.tasks t
 def fastSchedule (s : St) (t : Nat) (first : Bool) : St :=
   if t ∈ s.ready then { s with crashed := true }                       -- assert task not in self._ready
   else { s with ready := if first then t :: s.ready else s.ready ++ [t], pings := s.pings + 1 }
+
+/-- `Scheduler.schedule` :223-245 as called on the scheduler's thread, and `ScheduleTask.run` :982-994 (with `first = true`): a task
+    that is in the ready deque is left alone ("scheduled multiple times"), any other is handed to `fast_schedule`.  No yield of
+    the vocabulary calls it; the harness's `wake` yields call the real method, and the theorems `schedule_*` of `Properties/C06.lean`
+    say what such a call does to a reachable state. -/
+def schedule (s : St) (t : Nat) (first : Bool) : St :=
+  if t ∈ s.ready then s else fastSchedule s t first
 
 /-- `SelectHub.registerSelect` :929-936 (timeout already made absolute) and the observation of the wake time -/
 def registerSelect (s : St) (t : Nat) (rl wl xl : List Nat) (tto : Option Nat) : St :=
